@@ -63,6 +63,9 @@ func (v *Vue) evalInclude(ctx VueContext, node *html.Node, vars map[string]any, 
 		return nil, fmt.Errorf("error parsing %s (included from %s): %w", name, ctx.FormatTemplateChain(), err)
 	}
 
+	// Identify the component's own v-once elements (compDom is private to this include)
+	assignOnceIDs(name, compDom)
+
 	// Registered shorthand tags work inside component files like in the page itself
 	if err := v.resolveComponentTags(compDom); err != nil {
 		return nil, err
